@@ -348,7 +348,8 @@ def xsd_expected_type(view, a, dims):
         return ('keyword', tuple(view.keywords(a.target)))
     if t == 'flags':
         return ('keywordlist', tuple(view.keywords(a.target)))
-    if t in ('ref', 'id'):
+    if t in ('ref', 'id', 'string', 'file'):
+        # text is opaque to the XSD (and to dm_control): xs:string whatever arity the schema writes on it
         return ('scalar', 'xs:string', ())
     if t == 'chars':
         if 'pattern' in a.facets:
